@@ -63,6 +63,14 @@ def run_prog(prog: dict) -> dict:
         res["tagged_nodes"] += sum((r.get("tag_counts") or {}).values())
         res["compared"] += r["compared"]
         for pr in r["problems"]:
+            if pr["clause"] == "generate_loopy_raised" \
+                    and pr["what"].startswith("ValueError: Cannot assign the name") \
+                    and (r.get("tag_counts") or {}).get("named"):
+                # "a Named tag yields exactly that name or an error" (C15): the
+                # documented diagnostic, e.g. when a Named stored array is both an
+                # output and an operand of another output
+                res["named_refused"] = res.get("named_refused", 0) + 1
+                continue
             res["problems"].append({**pr, "variant": name, "spec": spec,
                                     "tags": r.get("tag_counts")})
         if r["kernel"]:
